@@ -172,7 +172,15 @@ func cmdCheck(argv []string) int {
 	var units []*Unit
 	tGen := time.Now()
 	for _, k := range keys {
-		u := e.verify(k, e.cs.Funcs[k])
+		var u *Unit
+		if e.cs.Funcs[k].Flags["closures_only"] != "" {
+			// only the function literals under `closure n` sub-contracts are verified; the body of the function itself is
+			// outside the engine's subset (listed as an assumption)
+			u = &Unit{eng: e, name: shortFuncName(k), contract: e.cs.Funcs[k]}
+			u.note("assumptions", "the body of "+shortFuncName(k)+" itself is not verified (flag closures_only): only its function literals under closure contracts are")
+		} else {
+			u = e.verify(k, e.cs.Funcs[k])
+		}
 		units = append(units, u)
 		units = append(units, u.spawnUnits...)
 		// function literals under a `closure n` sub-contract are units of their own
